@@ -26,6 +26,8 @@ RULE = (
     "every comparison whose spec side is not an absent/None value"
     ' Also (added while the seeded-change rounds of DESIGN section 9 ran): Plus: the metadata fingerprint after generated use of the library (after_use) and as built in freshly started interpreters (import_env: -O, -OO, -W error, -X dev, other hash seed, C locale, other first imports, logging opened up before the import).'
 )
+# this check looks at the registered classes themselves: classes derived by a program would take their place
+USER_SUBCLASSES = False
 ASSUMPTIONS = [
     "PyYAML parses specs/fileformat.yaml faithfully",
     "vlib.specmodel's reading of the YAML keys (min/max/enum/bool/depends_on/compact/no_offset, option keys) is the intended one",
